@@ -383,7 +383,7 @@ func (e *envA) doCopy(ctx context.Context, op Op) *evid.Violation {
 			}
 			gone := []string{}
 			for d := range before {
-				if !after[d] {
+				if !after[d] && !present(e.tgt, d) {
 					gone = append(gone, d)
 				}
 			}
@@ -508,8 +508,9 @@ func (e *envA) closeAndJudge(ctx context.Context, step string) *evid.Violation {
 			e.class("A:close-with-reachable-sha512-object")
 		}
 		k := digestKey(d)
-		h, ok := after.files[k]
-		if ok && h == before.files[k] {
+		h, ok := after.recheck(e.tgt, k)
+		if bh, listed := before.files[k]; ok && (!listed || h == bh) {
+			// (not listed before: the walk read it by path, so it was there; only its presence can be compared)
 			continue
 		}
 		ed := rb.edgeOf(d)
@@ -532,7 +533,7 @@ func (e *envA) closeAndJudge(ctx context.Context, step string) *evid.Violation {
 	// (3) with GC disabled nothing is removed at all
 	if !e.gc {
 		for _, k := range sortedKeys(before.files) {
-			if h, ok := after.files[k]; !ok || h != before.files[k] {
+			if h, ok := after.recheck(e.tgt, k); !ok || h != before.files[k] {
 				if v := e.report(evid.V("gc-disabled-close-removed-file", "%s: Close on a scheme created with WithGC(false) removed/changed blobs/%s", step, k)); v != nil {
 					return v
 				}
